@@ -94,6 +94,9 @@ def configs(tier):
     ap = dict(kind='apply', fn='ok')
     ap2 = dict(kind='apply', fn='ok', lost=1.0)
     mp = dict(kind='map', fn='tenfold', items=[1, 2], chunksize=1)
+    mp2 = dict(kind='map', fn='tenfold', items=[1, 2, 3, 4], chunksize=2)
+    mp3 = dict(kind='map', fn='tenfold', items=[1, 2, 3, 4, 5, 6],
+               chunksize=2)
     im = dict(kind='imap', fn='tenfold', items=[1, 2])
     imu = dict(kind='imap_unordered', fn='tenfold', items=[1, 2])
     A = dict(die=(-9, 1), die_idle=True, max_adv=3, put_faults=())
@@ -107,6 +110,12 @@ def configs(tier):
             ('imap', [im], 2, dict(A, next=True), pool),
             ('imap_unordered', [imu], 2, dict(A, next=True), pool),
             ('map+apply', [mp, ap], 2, dict(A, die=(-9,)), pool),
+            ('map/chunks-of-2', [mp2], 2, dict(A, die=(-9,)), pool),
+            ('map/3-chunks-of-2', [mp3], 2,
+             dict(A, die=(-9,), die_idle=False, max_adv=2), pool),
+            ('recycle-map/chunks-of-2', [mp3], 2,
+             dict(A, die=(-9,), die_idle=False, max_adv=2),
+             dict(pool, maxtasksperchild=1)),
             ('recycle-map', [mp, ap], 2, dict(A, die=(-9,), die_idle=False),
              dict(pool, maxtasksperchild=1)),
             ('recycle-imap', [imu], 2, dict(A, die=(-9,), die_idle=False),
